@@ -172,7 +172,8 @@ def rewrite(rng, root, kinds=None, p_site=0.5):
                                    "#\x0b</nosuchtype>", "# a\u2028<b>",
                                    "#\x85%define q r", "# x\ry z",
                                    "#\x1c(", "# p\u2029%include nosuch",
-                                   "#\x1d\x1e</>", "#"]))
+                                   "#\x1d\x1e</>", "#",
+                                   "# C:\\old\\", "#\\"]))
         if "trailing" in kinds and rng.random() < p_site:
             # "\r" makes the line end CRLF; the others are whitespace too
             body += rng.choice([" ", "\t", "  \t ", "\r", " \r", "\x0c",
